@@ -83,7 +83,10 @@ def needs_of(sid):
 
 
 def main():
-    ids = sys.argv[1:] or sorted(os.listdir(f"{VERIF}/seeded"))
+    args = [a for a in sys.argv[1:] if a != "--readme-only"]
+    ids = args or sorted(os.listdir(f"{VERIF}/seeded"))
+    if "--readme-only" in sys.argv:
+        ids = []
     ids = [i for i in ids if os.path.isdir(f"{VERIF}/seeded/{i}")]
     manifest = json.load(open(f"{VERIF}/MANIFEST.json"))
     claimed = {c["property_id"] for c in manifest["checks"]}
